@@ -1736,8 +1736,186 @@ def _same_real_array(a, b, what):
 _same_cx_array = _same_real_array
 
 
+def fft_corr_reference(positions, boxes, vectors, qvector, timesteps, dt, spacing):
+    """independent numpy implementation of what vector_fft_corr documents (docs/vectors.md section 7, docs/dynamics.md time correlation):
+    per frame F_c(q) = N^-1/2 sum_i v_ic exp(-i q.r_i), L = qhat (qhat . F), T = F - L on the 8-decimal tables, S = |.|^2, averages over equal
+    rounded |q|; per wave vector the origin-averaged (evenly spaced frames) or first-origin (otherwise) normalised autocorrelation."""
+    import numpy as np
+    Tn, N, d = vectors.shape
+    Qn = len(qvector)
+    r8 = lambda x: np.round(x, 8)
+    X = {H: np.zeros((Tn, Qn, d), dtype=complex) for H in HEADERS}
+    qtab = None
+    spectra = None
+    for t in range(Tn):
+        qv = 2 * np.pi * qvector.astype(float) / boxes[t][None, :]
+        qn = np.sqrt((qv ** 2).sum(axis=1))
+        F = np.zeros((Qn, d), dtype=complex)
+        for n_ in range(Qn):
+            ph = np.exp(-1j * (positions[t] @ qv[n_]))
+            F[n_] = (ph[:, None] * vectors[t]).sum(axis=0) / np.sqrt(N)
+        Sq = (np.abs(F) ** 2).sum(axis=1)
+        qv, qn, F, Sq = r8(qv), r8(qn), r8(F.real) + 1j * r8(F.imag), r8(Sq)
+        qh = qv / qn[:, None]
+        L = qh * (qh * F).sum(axis=1)[:, None]
+        Tr = F - L
+        SL, ST = r8((np.abs(L) ** 2).sum(axis=1)), r8((np.abs(Tr) ** 2).sum(axis=1))
+        L, Tr = r8(L.real) + 1j * r8(L.imag), r8(Tr.real) + 1j * r8(Tr.imag)
+        X["FFT"][t], X["L_FFT"][t], X["T_FFT"][t] = F, L, Tr
+        if t == 0:
+            qtab = np.column_stack([qv, qn])
+        keys = sorted(set(qn.tolist()))
+        ave = np.array([[kq] + [float(np.mean([col[n_] for n_ in range(Qn) if qn[n_] == kq])) for col in (Sq, ST, SL)] for kq in keys])
+        if spectra is None:
+            spectra = ave.copy()
+        elif spectra.shape != ave.shape:
+            return None                          # number of distinct |q| differs between frames: outside the precondition
+        else:
+            spectra = spectra + ave
+    spectra = spectra / Tn
+    tcs = {}
+    for H in HEADERS:
+        out = np.zeros((Qn, Tn))
+        for n_ in range(Qn):
+            A_ = X[H][:, n_, :]
+            C = np.zeros(Tn)
+            for k in range(Tn):
+                if spacing == "linear":
+                    C[k] = sum((A_[n0 + k] * np.conj(A_[n0])).sum().real for n0 in range(Tn - k)) / (Tn - k)
+                else:
+                    C[k] = (A_[k] * np.conj(A_[0])).sum().real
+            if abs(C[0]) < 1e-6:
+                return None                      # lag-zero correlation (nearly) zero: outside the precondition
+            out[n_] = C / C[0]
+        tcs[H] = out
+    tcol = (np.asarray(timesteps) - timesteps[0]) * dt
+    return dict(qtab=qtab, spectra=spectra, tcs=tcs, t=tcol)
+
+
 def _replay_fft_corr(case, clause, model, seed):
-    return {"ran": False, "failed": False, "error": "todo"}
+    import importlib
+    import os
+    import random
+    import shutil
+    import tempfile
+
+    import numpy as np
+    V = importlib.import_module(MOD)
+    RU = importlib.import_module("PyMatterSim.reader.reader_utils")
+    import pandas as pd
+    d = int(case[2])
+    spacing = case.split("/")[1]
+    default_name = case.endswith("default-name")
+    rng = random.Random(seed)
+    tmp = tempfile.mkdtemp(prefix="pyvc-c15-")
+    cwd = os.getcwd()
+    tried = 0
+    try:
+        os.chdir(tmp)
+        for trial in range(60):
+            first = trial == 0 and model.get("T") is not None
+            if first:
+                Tn = max(2 if spacing == "linear" else 1, min(int(_fr(model.get("T"), 3)), 6))
+                N = max(1, min(int(_fr(model.get("N"), 3)), 8))
+                Qn = max(1, min(int(_fr(model.get("Q"), 2)), 5))
+            else:
+                Tn = rng.choice([2, 3, 4, 6] if spacing == "linear" else [1, 2, 3, 5])
+                N = rng.choice([1, 3, 8])
+                Qn = rng.choice([1, 2, 4])
+            if spacing == "linear":
+                ts0, h = rng.choice([0, 0, 500]), rng.choice([1, 100])
+                ts = [ts0 + j * h for j in range(Tn)]
+            elif Tn <= 2:
+                ts = [rng.choice([0, 7]) + 3 * j for j in range(Tn)]      # one or two frames: no common spacing exists only for T = 1
+                if Tn == 2:
+                    continue
+            else:
+                ts = [rng.choice([0, 10])]
+                for j in range(1, Tn):
+                    ts.append(ts[-1] + 2 ** (j - 1) * rng.choice([1, 10]))
+                if len(set(np.diff(ts).tolist())) == 1:
+                    continue
+            dt = rng.choice([0.002, 0.01, 1.0])
+            box0 = np.array([rng.uniform(4, 9) for _ in range(d)])
+            boxes = [box0 * (1.0 if trial % 3 else rng.uniform(0.9, 1.1)) for _ in range(Tn)]
+            positions = [np.array([[rng.uniform(0, boxes[t][c]) for c in range(d)] for _ in range(N)]) for t in range(Tn)]
+            vectors = np.array([[[rng.uniform(-2, 2) for _ in range(d)] for _ in range(N)] for _ in range(Tn)])
+            if trial % 4 == 1:
+                vectors[:] = vectors[0][None]          # the same field in every frame
+            qs = []
+            while len(qs) < Qn:
+                q = tuple(rng.randint(-3, 3) for _ in range(d))
+                if any(q) and q not in qs:
+                    qs.append(q)
+            if trial % 3 == 0 and Qn >= 2:
+                qs[1] = tuple(-x for x in qs[0])       # equal |q| (exercises the average over equal wave numbers)
+            qvector = np.array(qs, dtype=int)
+            ref = fft_corr_reference(positions, boxes, vectors, qvector, ts, dt, spacing)
+            if ref is None:
+                continue
+            snaps = [RU.SingleSnapshot(timestep=ts[t], nparticle=N, particle_type=np.ones(N, dtype=int), positions=positions[t].copy(),
+                                       boxlength=boxes[t].copy(), boxbounds=np.column_stack([np.zeros(d), boxes[t]]), realbounds=None,
+                                       hmatrix=np.diag(boxes[t])) for t in range(Tn)]
+            S = RU.Snapshots(nsnapshots=Tn, snapshots=snaps)
+            keep_v, keep_q = vectors.copy(), qvector.copy()
+            of = "" if default_name else f"corr{trial}"
+            tried += 1
+            inputs = {"timesteps": ts, "dt": dt, "boxlengths": [b.tolist() for b in boxes], "positions": [p.tolist() for p in positions],
+                      "vectors": keep_v.tolist(), "qvector": keep_q.tolist()}
+            try:
+                got = V.vector_fft_corr(S, qvector, vectors, dt=dt, outputfile=of) if not default_name else V.vector_fft_corr(S, qvector, vectors, dt=dt)
+            except Exception as ex:
+                return {"ran": True, "failed": True, "searched": tried, "from_model": first, "inputs": inputs, "detail": f"raises {type(ex).__name__}: {ex}"}
+            bad = None
+            tol = 5e-7
+            if not isinstance(got, dict) or list(got.keys()) != HEADERS:
+                bad = f"returned keys {list(got.keys()) if isinstance(got, dict) else type(got).__name__}, expected {HEADERS}"
+            for H in ([] if bad else HEADERS):
+                df = got[H]
+                vals = np.asarray(df.values, dtype=float)
+                if vals.shape != (Qn, d + 1 + Tn):
+                    bad = f"{H}: frame of shape {vals.shape}, expected ({Qn}, {d + 1 + Tn}) = one row per wave vector, q0..q{d - 1}, q and one column per lag"
+                elif list(df.columns[:d + 1]) != [f"q{c}" for c in range(d)] + ["q"]:
+                    bad = f"{H}: leading columns {list(df.columns[:d + 1])}"
+                elif np.abs(np.array([float(x) for x in df.columns[d + 1:]]) - ref["t"]).max() > 1e-9 * max(1.0, np.abs(ref["t"]).max()):
+                    bad = f"{H}: lag column labels {list(df.columns[d + 1:])} are not the time axis (ts_k - ts_0) dt = {ref['t'].tolist()}"
+                elif np.abs(vals[:, :d + 1] - ref["qtab"]).max() > 3e-8:
+                    bad = f"{H}: q columns {vals[:, :d + 1].tolist()} differ from the first frame's q table {ref['qtab'].tolist()}"
+                elif not np.all(np.isfinite(vals)):
+                    bad = f"{H}: non-finite entries {vals.tolist()}"
+                elif np.abs(vals[:, d + 1:] - ref["tcs"][H]).max() > tol:
+                    n_, k_ = np.unravel_index(np.argmax(np.abs(vals[:, d + 1:] - ref["tcs"][H])), ref["tcs"][H].shape)
+                    bad = (f"{H}: wave vector {int(n_)}, lag {int(k_)}: {vals[n_, d + 1 + k_]!r}, but the normalised autocorrelation of the {H} columns "
+                           f"of that wave vector over the frames is {ref['tcs'][H][n_, k_]!r}")
+                elif np.abs(vals - np.round(vals, 8)).max() > 1e-12:
+                    bad = f"{H}: values are not rounded to 8 decimals"
+                else:
+                    path = of + "." + H + ".npy"
+                    if not os.path.exists(path):
+                        bad = f"{H}: file {path} was not written"
+                    elif not np.array_equal(np.load(path), vals):
+                        bad = f"{H}: saved array differs from the returned frame"
+                if bad:
+                    break
+            if bad is None:
+                path = of + ".spectra.csv"
+                if not os.path.exists(path):
+                    bad = f"spectra file {path} was not written"
+                else:
+                    back = pd.read_csv(path)
+                    if list(back.columns) != AVE_COLS or back.values.shape != ref["spectra"].shape:
+                        bad = f"spectra file: columns {list(back.columns)}, shape {back.values.shape}, expected {AVE_COLS} x {ref['spectra'].shape[0]} rows"
+                    elif np.abs(back.values - ref["spectra"]).max() > 1e-7:
+                        bad = f"spectra file {back.values.tolist()} is not the frame average of the per-frame averaged tables {ref['spectra'].tolist()}"
+            if bad is None and not (np.array_equal(keep_v, vectors) and np.array_equal(keep_q, qvector)
+                                    and all(np.array_equal(positions[t], snaps[t].positions) for t in range(Tn))):
+                bad = "an input array was modified"
+            if bad:
+                return {"ran": True, "failed": True, "searched": tried, "from_model": first, "inputs": inputs, "detail": bad}
+    finally:
+        os.chdir(cwd)
+        shutil.rmtree(tmp, ignore_errors=True)
+    return {"ran": True, "failed": False, "searched": tried, "detail": "real code satisfies every clause on the seeded inputs"}
 
 
 UNITS = [ParticipationRatio(), LocalAlignment(), PhaseQuotient(), DivergenceCurl(), Vibrability(), VectorDecompositionSq(), VectorFftCorr()]
